@@ -1,5 +1,5 @@
 // C08 harness: determinism and schedule independence of Circuit::placeGlobal / legalize / placeDetailed
-//   determ gen rand SEED COUNT [MAXCELLS]       print case lines
+//   determ gen rand|stop SEED COUNT [MAXCELLS]  print case lines (stop: with the 6th number, see below)
 //   determ run [tsan|fill] < cases              one result line per case
 // case:   "DT <rows> <cells> <nets> effort seed noise1e6 aux"
 //           rows/cells/nets as in cgen.hpp (showRowsCells / showNets); seed = ColoquinteParameters::seed;
@@ -9,6 +9,9 @@
 //           continuous-model / legalization-ordering / detailed-placement knobs) away from its default with probability 1/2 each,
 //           inside the accepted box (the set is dropped for the defaults when check() refuses it); par=<hex mask> in the result
 //           line has bit i set when field i (order of paramFields) differs from the default set of the case
+//         optional 6th number stop (0 / absent: nothing; `gen stop`: 50..600): global.gapTolerance = stop / 1000, global.distanceTolerance = 0
+//           and global.maxNbSteps = 40 on top of the above (kept only if check() accepts the set): the lower-bound / upper-bound gap ALONE decides at which step the run ends, so that anything that leaks into the
+//           values the stopping rule reads changes the number of steps and with it the placement (round 6)
 // result: "OK runs=<n> lb=<LowerBound callbacks seen> hook=<solve-hook calls> forced=<steps whose completion order was forced>
 //              unforced=<steps where forcing timed out> axis=<0/1 x/y models identified by address> cbsig=<hash of all
 //              placements seen by the observing callback> sol=<G outcome+placement> | <L ...> | <D ...>"
@@ -31,9 +34,24 @@
 //   (mallopt(M_PERTURB, 85 / 170)); the base run sees whatever the process left behind.  A result that differs read memory
 //   nobody initialised; fill=<runs with a fill> in the result line.
 //   `run fill`: base, callback and the two fill runs only (the mode of the -ftrivial-auto-var-init builds, checks/c08.py).
+//   ambient[...] (AMBIENT PROCESS STATE, round 6; not in `run tsan` / `run fill`): three more runs of the flow, each entered under a
+//   composite process state that a library must not read, applied before EVERY entry point call and undone after it:
+//     errno preset to ERANGE / EDOM / EINTR (every other run: 0);
+//     std::cout good with its output captured in memory / badbit / good over a never-opened filebuf (every write fails) (every other
+//       run: failbit, vh_silence); std::cerr failbit / badbit / never-opened filebuf (every other run: good);
+//     locale: setlocale(LC_ALL, "C.utf8") + std::locale::global(classic + numpunct with decimal comma and digit grouping), imbued
+//       into std::cout / std::cerr (only C, C.utf8, POSIX are installed); exception texts are not compared under this one;
+//     std::srand(other) + a few rand() draws;  setenv of OMP_NUM_THREADS, LANG, LC_ALL, TZ, COLOQUINTE_* ... (amb::envKV).
+//   Results (x, y, orientation after each stage, outcome, callback signature) must be bitwise those of the base run.  A composite
+//   that differs is re-run with each component alone; the DIFF names the first single state that reproduces it, e.g.
+//   "mode=ambient[errno=ERANGE]".  amb=<ambient runs> ambout=<bytes the library printed into the captured good std::cout>.
 // The solve hook is `coloquinte_verif_solve_hook(model, phase)` (commit "verif hook: ..." in /repo, guarded by COLOQUINTE_VERIF);
 // without it hook=0 is printed and nothing is forced.
 #include <atomic>
+#include <cerrno>
+#include <clocale>
+#include <fstream>
+#include <locale>
 #include <chrono>
 #include <condition_variable>
 #include <cstddef>
@@ -138,7 +156,83 @@ static void hook(const void *model, int phase) {
 
 extern "C" void coloquinte_verif_solve_hook(const void *model, int phase) { hk::hook(model, phase); }
 
-struct RunResult { std::string stage[3]; uint64_t cbsig = 0; long lb = 0; };
+// ---- ambient process state (round 6): state of the PROCESS that a library must not read.  A state is applied immediately
+// before every entry point call (placeGlobal / legalize / placeDetailed) and undone right after it returns or throws, so that the
+// harness's own formatting (showPlacement uses an ostringstream) never runs under it.  Value 0 of every dimension is the base.
+// NOT varied: the floating-point rounding mode and FTZ/DAZ (they legitimately change results).
+namespace amb {
+enum Dim { ERRNO = 0, COUT, CERR, LOCALE, RAND, ENV, NDIM };
+struct State { int v[NDIM] = {0, 0, 0, 0, 0, 0}; uint64_t h = 0; };
+static const char *dimName[NDIM] = {"errno", "cout", "cerr", "locale", "rand", "env"};
+static const char *valName[NDIM][4] = {
+  {"0", "ERANGE", "EDOM", "EINTR"},
+  {"failbit", "good-captured", "badbit", "closed-buffer"},      // base: what vh_silence() does for every other run
+  {"good", "failbit", "badbit", "closed-buffer"},
+  {"C", "C.utf8+global-comma-numpunct", "", ""},
+  {"untouched", "srand(other)+rand()", "", ""},
+  {"untouched", "setenv", "", ""}};
+static const int errnoVal[4] = {0, ERANGE, EDOM, EINTR};
+enum SM { S_FAIL, S_GOOD, S_CAPTURED, S_BAD, S_CLOSED };
+static const int coutMode[4] = {S_FAIL, S_CAPTURED, S_BAD, S_CLOSED};
+static const int cerrMode[4] = {S_GOOD, S_FAIL, S_BAD, S_CLOSED};
+static std::streambuf *coutOrig = nullptr, *cerrOrig = nullptr;
+static std::stringbuf capOut, capErr;            // good stream, output kept in memory (the harness's own stdout stays clean)
+static std::filebuf closedOut, closedErr;        // never opened: the stream starts good, every write fails and turns it bad
+static long captured = 0;                        // bytes the library printed into a good std::cout (the variant was live)
+struct CommaPunct : std::numpunct<char> {
+  char do_decimal_point() const override { return ','; }
+  char do_thousands_sep() const override { return '.'; }
+  std::string do_grouping() const override { return "\3"; }
+};
+static const std::locale &commaLocale() { static const std::locale l(std::locale::classic(), new CommaPunct); return l; }
+static const char *envKV[][2] = {
+  {"OMP_NUM_THREADS", "3"}, {"OMP_DYNAMIC", "TRUE"}, {"OMP_SCHEDULE", "dynamic,1"}, {"MKL_NUM_THREADS", "2"}, {"OPENBLAS_NUM_THREADS", "2"},
+  {"EIGEN_NUM_THREADS", "5"}, {"LANG", "de_DE.UTF-8"}, {"LC_ALL", "tr_TR.UTF-8"}, {"LC_NUMERIC", "fr_FR.UTF-8"}, {"TZ", "Asia/Kolkata"},
+  {"COLOQUINTE_SEED", "12345"}, {"COLOQUINTE_NUM_THREADS", "7"}, {"COLOQUINTE_VERBOSE", "0"}, {"PYTHONHASHSEED", "99"},
+  {"TMPDIR", "/nonexistent"}, {"COLUMNS", "1"}};
+static std::vector<std::pair<std::string, std::pair<bool, std::string>>> envSaved;
+
+static void setStream(std::ostream &s, std::streambuf *orig, std::stringbuf &cap, std::filebuf &closed, int m) {
+  switch (m) {   // rdbuf(sb) clears the state
+    case S_GOOD: s.rdbuf(orig); s.clear(); break;
+    case S_FAIL: s.rdbuf(orig); s.clear(); s.setstate(std::ios_base::failbit); break;
+    case S_CAPTURED: cap.str(std::string()); s.rdbuf(&cap); s.clear(); break;
+    case S_BAD: s.rdbuf(orig); s.clear(); s.setstate(std::ios_base::badbit); break;
+    case S_CLOSED: s.rdbuf(&closed); s.clear(); break;
+  }
+}
+static void init() { if (!coutOrig) { coutOrig = std::cout.rdbuf(); cerrOrig = std::cerr.rdbuf(); } }
+static void apply(const State &a) {
+  init();
+  setStream(std::cout, coutOrig, capOut, closedOut, coutMode[a.v[COUT]]);
+  setStream(std::cerr, cerrOrig, capErr, closedErr, cerrMode[a.v[CERR]]);
+  if (a.v[LOCALE]) { setlocale(LC_ALL, "C.utf8"); std::locale::global(commaLocale()); std::cout.imbue(commaLocale()); std::cerr.imbue(commaLocale()); }
+  if (a.v[RAND]) { std::srand((unsigned)(a.h | 1)); for (unsigned k = 0; k < 1 + a.h % 7; ++k) (void)std::rand(); }
+  if (a.v[ENV]) {
+    envSaved.clear();
+    for (auto &kv : envKV) { const char *old = getenv(kv[0]); envSaved.push_back({kv[0], {old != nullptr, old ? old : ""}}); setenv(kv[0], kv[1], 1); }
+  }
+  errno = errnoVal[a.v[ERRNO]];   // last: nothing runs between this store and the entry point call
+}
+static void restore(const State &a) {
+  if (coutMode[a.v[COUT]] == S_CAPTURED) captured += (long)capOut.str().size();
+  setStream(std::cout, coutOrig, capOut, closedOut, S_FAIL);
+  setStream(std::cerr, cerrOrig, capErr, closedErr, S_GOOD);
+  if (a.v[LOCALE]) { std::locale::global(std::locale::classic()); std::cout.imbue(std::locale::classic()); std::cerr.imbue(std::locale::classic()); setlocale(LC_ALL, "C"); }
+  if (a.v[RAND]) std::srand(1);
+  if (a.v[ENV]) { for (auto &e : envSaved) { if (e.second.first) setenv(e.first.c_str(), e.second.second.c_str(), 1); else unsetenv(e.first.c_str()); } envSaved.clear(); }
+  errno = 0;
+}
+static std::string name(const State &a) {
+  std::string s = "ambient[";
+  for (int d = 0; d < NDIM; ++d) if (a.v[d]) { if (s.back() != '[') s += ","; s += std::string(dimName[d]) + "=" + valName[d][a.v[d]]; }
+  return s + "]";
+}
+}  // namespace amb
+
+// stage: outcome (OK / THROW + exception text) + placement; bare: the same without the exception text (compared under a changed
+// locale, where a number inside a message may be formatted differently: the property speaks of coordinates and orientations)
+struct RunResult { std::string stage[3], bare[3]; uint64_t cbsig = 0; long lb = 0; };
 
 static uint64_t fold(uint64_t h, long long v) { return (h ^ (uint64_t)v) * 0x100000001B3ULL + 0x9E37; }
 
@@ -216,7 +310,7 @@ struct Scrib {
   }
 };
 
-static RunResult runFlow(Circuit &c, const ColoquinteParameters &p0, bool withCb, Scrib *sc = nullptr) {
+static RunResult runFlow(Circuit &c, const ColoquinteParameters &p0, bool withCb, Scrib *sc = nullptr, const amb::State *as = nullptr) {
   RunResult r; r.cbsig = 0xcbf29ce484222325ULL;
   std::optional<PlacementCallback> cb;
   if (withCb) cb = [&](PlacementStep s) {
@@ -231,10 +325,15 @@ static RunResult runFlow(Circuit &c, const ColoquinteParameters &p0, bool withCb
     if (hk::fillOn) hk::paintStack(hk::fillWord);
     if (sc) sc->live = p0;
     const ColoquinteParameters &p = sc ? sc->live : p0;
+    bool threw = false;
+    if (as) amb::apply(*as); else errno = 0;   // every run that is not an ambient-state variant enters the library with errno == 0
     try {
       if (st == 0) c.placeGlobal(p, cb); else if (st == 1) c.legalize(p, cb); else c.placeDetailed(p, cb);
-    } catch (std::exception &e) { res = std::string("THROW ") + e.what(); }
-    r.stage[st] = res + " ;" + showPlacement(c);
+    } catch (std::exception &e) { threw = true; res = std::string("THROW ") + e.what(); }
+    if (as) amb::restore(*as);
+    const std::string pl = showPlacement(c);
+    r.stage[st] = res + " ;" + pl;
+    r.bare[st] = std::string(threw ? "THROW" : "OK") + " ;" + pl;
   }
   return r;
 }
@@ -338,6 +437,7 @@ int main(int argc, char **argv) {
   }
   if (mode == "gen") {
     SplitMix g(strtoull(argv[3], nullptr, 10)); long long count = atoll(argv[4]); int maxCells = argc > 5 ? atoi(argv[5]) : 24;
+    const bool stopClass = std::string(argv[2]) == "stop";
     SplitMix gp(strtoull(argv[3], nullptr, 10) * 1000003ULL + 77);   // its own stream: the circuits of a seed are those of the earlier format
     for (long long it = 0; it < count; ++it) {
       GenOpts o; o.nets = true; o.utilLo = 20; o.utilHi = 85; o.maxCells = maxCells; o.polarity = g.coin(50); o.turned = g.coin(50);
@@ -348,8 +448,10 @@ int main(int argc, char **argv) {
       int noiseSel = (int)g.uni(0, 3);   // default 1e-4, none, strong
       long long noise = noiseSel == 0 ? -1 : noiseSel == 1 ? 0 : noiseSel == 2 ? 100000 : 1000000;
       unsigned long long pseed = gp.coin(60) ? 1 + gp.next() % 1000000000ULL : 0;   // 40 %: the effort defaults (+ seed, noise)
-      printf("DT %s %s %d %d %lld %llu %llu\n", showRowsCells(t).c_str(), showNets(t).c_str(), (int)g.uni(1, 4), (int)g.uni(-1, 1000), noise,
+      printf("DT %s %s %d %d %lld %llu %llu", showRowsCells(t).c_str(), showNets(t).c_str(), (int)g.uni(1, 4), (int)g.uni(-1, 1000), noise,
              (unsigned long long)(g.next() % 1000000), pseed);
+      if (stopClass) printf(" %d", (int)gp.uni(50, 600));   // `gen stop`: the gap criterion decides when the run ends
+      printf("\n");
     }
     return 0;
   }
@@ -367,10 +469,13 @@ int main(int argc, char **argv) {
       const ColoquinteParameters pdef = makeParams(effort, seed, noise);
       ColoquinteParameters p = pdef;
       if (pseed) { perturbParams(p, pseed); try { p.check(); } catch (std::exception &) { p = pdef; } }
+      const long long stop = r.done() ? 0 : r.nx();
+      if (stop > 0) { ColoquinteParameters q = p; q.global.gapTolerance = stop / 1000.0; q.global.distanceTolerance = 0.0; q.global.maxNbSteps = 40; try { q.check(); p = q; } catch (std::exception &) {} }
       const uint64_t pmask = paramMask(p, makeParams(effort, seed, -1));   // against the effort defaults (global.noise: the case line's own knob)
       Circuit orig = buildCircuit(t);
       long hook0 = hk::calls.load(std::memory_order_relaxed);
       long forced0 = hk::forced, unforced0 = hk::unforced;
+      const long captured0 = amb::captured;
       hk::reset(hk::FREE, aux);
       Circuit c0 = orig; RunResult base = runFlow(c0, p, false);
       RunResult cbBase; bool haveCb = false;
@@ -428,6 +533,33 @@ int main(int argc, char **argv) {
         { Circuit c = orig; RunResult x = runFlow(c, p, withCb); hk::setFill(false, 0, 0); cmp(name, x, withCb); }
         ++fills;
       };
+      // ambient process state (round 6): the same flow entered under process states a library must not read.  Composite states
+      // (one non-base value of several dimensions at once: every value of every dimension is visited by three runs); a composite
+      // that differs is re-run with each of its components ALONE and the difference is attributed to the first one that
+      // reproduces it, so that the variant name in the DIFF line names the state that matters.
+      long ambRuns = 0;
+      auto ambientRun = [&](amb::State s, bool withCb) -> std::string {
+        s.h = hk::mix(aux, (uint64_t)runs);
+        hk::reset(hk::FREE, aux + runs);
+        Circuit c = orig; RunResult x = runFlow(c, p, withCb, nullptr, &s); ++ambRuns; ++runs;
+        static const char *sn[3] = {"global", "legalize", "detailed"};
+        const std::string nm = amb::name(s); const bool textFree = s.v[amb::LOCALE] != 0;
+        for (int k = 0; k < 3; ++k) {
+          const std::string &a = textFree ? base.bare[k] : base.stage[k], &b = textFree ? x.bare[k] : x.stage[k];
+          if (a != b) return "mode=" + nm + " stage=" + sn[k] + " base=" + a + " got=" + b;
+        }
+        if (withCb && haveCb && (x.cbsig != cbBase.cbsig || x.lb != cbBase.lb))
+          return "mode=" + nm + " placements seen by the callback differ from the first callback run: base=" + std::to_string(cbBase.cbsig) + "/" + std::to_string(cbBase.lb) + " got=" + std::to_string(x.cbsig) + "/" + std::to_string(x.lb);
+        return std::string();
+      };
+      auto ambient = [&](std::initializer_list<std::pair<int, int>> comps, bool withCb) {
+        if (!diff.empty()) return;
+        amb::State s; for (auto &kv : comps) s.v[kv.first] = kv.second;
+        std::string d = ambientRun(s, withCb);
+        if (d.empty()) return;
+        for (auto &kv : comps) { amb::State one; one.v[kv.first] = kv.second; std::string d1 = ambientRun(one, withCb); if (!d1.empty()) { diff = d1; return; } }
+        diff = d + " (no single component of this state reproduces the difference alone)";
+      };
       if (fillOnly) {
         variant("callback", hk::FREE, true, 0);
         filled("uninit-fill-A", 0x3f800000u, 85, false);
@@ -438,6 +570,11 @@ int main(int argc, char **argv) {
       variant("callback", hk::FREE, true, 0);
       filled("uninit-fill-A", 0x3f800000u, 85, false);
       filled("uninit-fill-B", 0x7fc00000u, 170, true);
+      if (!light) {
+        ambient({{amb::ERRNO, 1}, {amb::COUT, 1}, {amb::CERR, 1}, {amb::LOCALE, 1}}, false);
+        ambient({{amb::ERRNO, 2}, {amb::COUT, 2}, {amb::CERR, 2}, {amb::RAND, 1}}, true);
+        ambient({{amb::ERRNO, 3}, {amb::COUT, 3}, {amb::CERR, 3}, {amb::ENV, 1}}, false);
+      }
       variant("delays", hk::DELAY, false, 0);
       variant("delays+callback", hk::DELAY, true, 0);
       if (!light) variant("after-unrelated", hk::FREE, false, 2);
@@ -450,8 +587,8 @@ int main(int argc, char **argv) {
       }
       hk::reset(hk::FREE, 0);
       if (!diff.empty()) { printf("DIFF %s\n", diff.c_str()); fflush(stdout); continue; }
-      printf("OK runs=%d scrib=%ld fill=%ld par=%llx lb=%ld hook=%ld forced=%ld unforced=%ld axis=%d cbsig=%llu sol=%s | %s | %s\n", runs, scribbles, fills,
-             (unsigned long long)pmask, cbBase.lb,
+      printf("OK runs=%d scrib=%ld fill=%ld amb=%ld ambout=%ld par=%llx lb=%ld hook=%ld forced=%ld unforced=%ld axis=%d cbsig=%llu sol=%s | %s | %s\n", runs, scribbles, fills,
+             ambRuns, amb::captured - captured0, (unsigned long long)pmask, cbBase.lb,
              hk::calls.load(std::memory_order_relaxed) - hook0, hk::forced - forced0, hk::unforced - unforced0, (int)hk::axisOk,
              (unsigned long long)cbBase.cbsig, base.stage[0].c_str(), base.stage[1].c_str(), base.stage[2].c_str());
     } catch (std::exception &ex) { printf("THROW-OUTER %s\n", ex.what()); }
